@@ -45,6 +45,8 @@ class Ctx:
         self.quiet = quiet
         self.t0 = time.time()
         self.program = Program(repo)
+        from rules.normalise import normalise
+        self.normalisation = normalise(self.program)
         self.findings = []
         self.instances = []  # (rule, instance, verdict, detail)
         self.notices = []
@@ -80,6 +82,12 @@ class Ctx:
             line = getattr(node, "lineno", None)
         if line is None and hasattr(func_or_qual, "node"):
             line = func_or_qual.node.lineno
+        if node is not None and getattr(node, "_inl_origin", None):
+            # statement copied from an inlined helper: report the helper's own line
+            message = "%s [in helper %s, inlined at line %d]" % (message, node._inl_origin[0], int(line or 0))
+            line = node._inl_origin[1] or line
+        if isinstance(line, float):
+            line = int(line)
         f = Finding(rule, qual, key, message, file, line, path, witness)
         # one finding per identity
         for g in self.findings:
